@@ -197,3 +197,33 @@ func VerifC39Request() {
 	verifObserve("ctl", uint64(len(c39Ctl)))
 	verifObserve("relays", uint64(nx+nt+nz))
 }
+
+// VerifC39Cleanup: relay indexes disappear with the tunnel that owns them, whether or not another tunnel to the same
+// peer remains.
+func VerifC39Cleanup() {
+	w := c39Build(true, true)
+	hm := w.f.hostMap
+	sibling := verifBool("sibling_tunnel_remains")
+	x2 := c39Host(4, true, c39X, c39X2)
+	if sibling {
+		hm.unlockedAddHostInfo(x2, &Interface{}) // a second tunnel to X (re-handshake): x2 is primary, w.x stays in the list
+	}
+	// w.x owns two relay entries of arbitrary type and state
+	r1, r2 := c39Relay("r7", 7), c39Relay("r8", 8)
+	verifAssume(r1.PeerAddr != r2.PeerAddr)
+	w.x.relayState.InsertRelay(r1.PeerAddr, 7, r1)
+	w.x.relayState.InsertRelay(r2.PeerAddr, 8, r2)
+	hm.Relays[7], hm.Relays[8] = w.x, w.x
+	// an unrelated relay index of another tunnel
+	rz := &Relay{Type: ForwardingType, State: Established, LocalIndex: 9, RemoteIndex: 509, PeerAddr: c39X}
+	w.z.relayState.InsertRelay(c39X, 9, rz)
+	hm.Relays[9] = w.z
+
+	final := hm.unlockedDeleteHostInfo(w.x)
+	verifAssert(final == !sibling, "the last-tunnel report follows the sibling")
+	_, has7 := hm.Relays[7]
+	_, has8 := hm.Relays[8]
+	verifAssert(!has7 && !has8, "relay indexes disappear with the tunnel that owns them, even when another tunnel to the peer remains")
+	verifAssert(hm.Relays[9] == w.z, "relay indexes of other tunnels stay")
+	verifObserve("relays_left", uint64(len(hm.Relays)))
+}
